@@ -112,7 +112,8 @@ def replaceJudge (f : List String) (out : String) : String :=
       | some b => Casket.ReplacerSpec.verdict c.env c.fmt (.out b)
 
 /-!
-  c20.log  directives conc requests errlens wrap       (wrap: - | errors)
+  c20.log  directives conc requests errlens wrap writer   (wrap: - | errors; writer: plain | rf | h1, Go side only)
+     ops   h<code> | w<n> | c<n> io.Copy | n<n> io.CopyN | s<n> ServeContent | f Flush
      directives  ','-separated  D<hex scope>[:<hex except>]*        (one `log` directive each, in file order)
      requests    ','-separated  <hex path>:<ops>:<ret>:<0|1 panics>  ops '.'-separated h<code> | w<n>
      errlens     ','-separated  <status>=<length of the default error body>
@@ -129,16 +130,25 @@ def parseDirective (s : String) : Option Directive :=
   | _ => none
 
 open Casket.Log in
-def parseOp (s : String) : Option Op :=
-  if s.startsWith "h" then (s.drop 1).toString.toNat?.map Op.header
-  else if s.startsWith "w" then (s.drop 1).toString.toNat?.map Op.write
+/-- one scripted call of the handler, as writer operations of the model.  The property is about
+what the client receives, so a body sent with io.Copy / io.CopyN (`c`, `n`) IS a write of that many
+bytes, `http.ServeContent` (`s`) is WriteHeader(200) + a write of the file size, and Flush (`f`)
+sends the header without body bytes, i.e. a write of 0 bytes. -/
+def parseOp (s : String) : Option (List Op) :=
+  let arg := (s.drop 1).toString.toNat?
+  if s.startsWith "h" then arg.map fun n => [Op.header n]
+  else if s.startsWith "w" then arg.map fun n => [Op.write n]
+  -- io.Copy of an empty source never calls Write, so it does not even send the header
+  else if s.startsWith "c" || s.startsWith "n" then arg.map fun n => if n = 0 then [] else [Op.write n]
+  else if s.startsWith "s" then arg.map fun n => [Op.header 200, Op.write n]
+  else if s = "f" then some [Op.write 0]
   else none
 
 open Casket.Log in
 def parseRequest (s : String) : Option (Bytes × Outcome) :=
   match s.splitOn ":" with
   | [p, ops, ret, pan] => do
-    let ops ← (if ops = "" then some [] else (ops.splitOn ".").mapM parseOp)
+    let ops ← (if ops = "" then some [] else ((ops.splitOn ".").mapM parseOp).map List.flatten)
     pure (← Driver.unhex p, { ops := ops, ret := ← ret.toNat?, panics := pan = "1" })
   | _ => none
 
@@ -154,7 +164,7 @@ structure LogCase where
   errLen : Nat → Nat
 
 def parseLog : List String → Option LogCase
-  | [ds, _conc, reqs, errlens, wrap] => do
+  | [ds, _conc, reqs, errlens, wrap, _writer] => do
     let ds ← (if ds = "" then some [] else (ds.splitOn ",").mapM parseDirective)
     let reqs ← (if reqs = "" then some [] else (reqs.splitOn ",").mapM parseRequest)
     let el ← parseErrLens errlens
